@@ -184,6 +184,23 @@ def check_decoder(rep, fx, name, dec):
             'the failure of the decoding step is caught (no `?`), that arm pushes NIL and returns push_data\'s Ok' if ok else
             'decoder %s can return an error or a non-nil value for invalid text (decode-call=%s, nil-push=%s, own Err returns=%d, forwards=%s)'
             % (name, bool(libs), nil_push, len(errs), fwd), dec, f.j['span'])
+    # libraries that are more lenient than the alphabet: base32 0.4 decodes '=' anywhere as the digit 0 and accepts lower case;
+    # z85 3.0 accepts '#' padding in places where it then miscounts.  Their wrappers must look at the text themselves: some test
+    # of a value computed from the text decides whether the library is asked at all
+    from ..pathq import edge_guards
+    LENIENT = ('base32::decode', 'z85::decode')
+    for h in [f] + [fx.fns[r] for r in fx.reachable_from([dec]) if r.startswith('base_ext::') and r != dec and r in fx.fns and '{closure' not in r]:
+        for bb, t in h.calls():
+            c = callee_of(t) or ''
+            if c not in LENIENT:
+                continue
+            txt = expr_str(h.expr_of_operand(t['args'][-1]), -8)
+            core_txt = 'cell::Cell::to_xstr'
+            vetted = any(core_txt in expr_str(e, -30) for (b2, e, side) in edge_guards(h, bb))
+            rep.add('C18.R3', key + ':lenient-library-text-vetted', vetted,
+                    'the text is tested before %s sees it' % short(c) if vetted else
+                    '%s hands the text to %s unchecked: that library decodes some text outside the alphabet (or panics on it) instead of '
+                    'reporting failure, so invalid text yields a value, not nil' % (short(h.name), short(c)), h.name, t.get('at'))
     # the library's failure value is turned into the Err that the word catches
     units = [f] + [fx.fns[r] for r in fx.reachable_from([dec]) if r.startswith('base_ext::') and r != dec and r in fx.fns
                    and r not in getattr(f, 'inlined', []) and '{closure' not in r]
